@@ -95,7 +95,7 @@ def ipvZeroExtra (cap : Nat) (member : String) : Bool :=
   cap == 0 && (member == "copy_assign" || member == "move_assign" || member == "swap_free")
 
 /-- operations on object `k` alone, for `static_vector` (and the stack built on it) -/
-def step1 (cap : Nat) (op : Op) (d : V) : Except Err (V × Out) :=
+def step1 (cap : Nat) (kind : Kind) (op : Op) (d : V) : Except Err (V × Out) :=
   match op with
   | .push ov x =>
     if ov = 2 then do let d1 ← emplaceBack cap d x; .ok (d1, .unit)
@@ -117,8 +117,8 @@ def step1 (cap : Nat) (op : Op) (d : V) : Except Err (V × Out) :=
   | .ctorN n => do let d1 ← ctorN cap n; .ok (d1, .unit)
   | .ctorNVal n x => do let d1 ← ctorNVal cap n x; .ok (d1, .unit)
   | .ctorRange xs => do let d1 ← ctorRange cap xs; .ok (d1, .unit)
-  | .eraseVal x => do let r ← eraseIf cap d (fun v => v == x); .ok (r.1, .count r.2)
-  | .eraseIf m r => do let e ← eraseIf cap d (modPred m r); .ok (e.1, .count e.2)
+  | .eraseVal x => do let r ← eraseIf cap kind d (fun v => v == x); .ok (r.1, .count r.2)
+  | .eraseIf m r => do let e ← eraseIf cap kind d (modPred m r); .ok (e.1, .count e.2)
   | .dump => .ok (d, .unit)
   | _ => .error (.pre "not a single-object member")
 
@@ -181,7 +181,7 @@ def step (s : Sys) (k : Nat) (op : Op) : Except Err (Sys × Out) :=
     .ok (s, .rels bs)
   | op => do
     let d ← rd s.objs k
-    let r ← if s.ty = .ipv then step1Ipv s.cap op d else step1 s.cap op d
+    let r ← if s.ty = .ipv then step1Ipv s.cap op d else step1 s.cap s.kind op d
     .ok (s.setObj k r.1, r.2)
 
 /-! ### documented preconditions -/
